@@ -47,6 +47,8 @@ void vf_set_guards(uint32_t m) {
 }
 void vf_nondet_guards(uint32_t fixmask, uint32_t fixval) {
   uint32_t n = vf_nondet(3);
+  n = (n & ~fixmask) | (fixval & fixmask);
+  vf_inputs[3] = n;      /* the effective valuation is what a replay needs */
   vf_gmask = n;
 #define VF_NDG(i) VF_G1(i, ((fixmask >> (i)) & 1u) ? ((fixval >> (i)) & 1u) : ((n >> (i)) & 1u))
   VF_G8(0, VF_NDG) VF_G8(8, VF_NDG) VF_G8(16, VF_NDG) VF_G8(24, VF_NDG)
